@@ -113,6 +113,12 @@ if sys.argv[1] == "--bounded":
                         got = {tuple(ix) for ix in m.get_substr_indices(pat)}
                         want = brute_embeddings(n, edges, els, pn, pedges, pels)
                         n_match += 1
+                        if n == 3:
+                            # the ensemble class has its own get_substr_indices
+                            e_ = ml.ConformerEnsemble(m, n_conformers=1)
+                            got_e = {tuple(ix) for ix in e_.get_substr_indices(pat)}
+                            if got_e != want and len(viol) < 3:
+                                viol.append({"signature": "matching", "what": f"ConformerEnsemble.get_substr_indices edges={edges} els={els} pattern={pedges}/{pels}: got {sorted(got_e)[:4]} want {sorted(want)[:4]}"})
                         if got != want and len(viol) < 3:
                             viol.append({"signature": "matching", "what": f"edges={edges} els={els} pattern={pedges}/{pels}: got {sorted(got)[:4]} want {sorted(want)[:4]}"})
     print(json.dumps({"graphs": n_graphs, "bfs_cases": n_cases, "matching_cases": n_match, "violations": viol}))
@@ -120,6 +126,19 @@ if sys.argv[1] == "--bounded":
 
 doc = json.load(open(sys.argv[1]))
 w = doc.get("witness") or {}
+if w.get("op") == "bond-order":
+    want = {0: 0.0, 1: 1.0, 2: 2.0, 3: 3.0, 4: 4.0, 5: 5.0, 6: 6.0, 10: 0.0, 11: 0.0, 20: 1.5, 98: 0.0}
+    badt = []
+    for bt in ml.BondType:
+        b = ml.Bond(ml.Atom("C"), ml.Atom("Fe"), btype=bt, f_order=0.2)
+        exp = 0.2 if bt == ml.BondType.FractionalOrder else want.get(int(bt))
+        if exp is not None and abs(b.order - exp) > 1e-12:
+            badt.append(f"Bond.order of a {bt.name} bond is {b.order}, expected {exp}")
+    if badt:
+        print("REPRODUCED:", badt[0])
+        sys.exit(0)
+    print("not reproduced")
+    sys.exit(1)
 edges = [tuple(e) for e in (w.get("edges") or [])]
 bad = check_graph(max([4] + [max(e) + 1 for e in edges]), edges) if w.get("op") in ("bfs", "ring") else []
 if w.get("op") not in ("bfs", "ring"):
